@@ -214,3 +214,8 @@ func init() {
 	prop("C11", "C11-R6")
 	prop("C06", "C11-R6")
 }
+
+func init() {
+	prop("C15", "C15-R6")
+	prop("C11", "C15-R6") // temporary pages of the hash join
+}
